@@ -409,6 +409,7 @@ void* hawk_xma_alloc (hawk_xma_t* xma, hawk_oow_t size)
 	/* round up 'size' to the multiples of ALIGN */
 	if (size < MINALLOCSIZE) size = MINALLOCSIZE;
 	size = HAWK_ALIGN_POW2(size, ALIGN);
+	if (HAWK_UNLIKELY(size < ALIGN)) return HAWK_NULL; /* the rounding wrapped around. the request is too large */
 
 	HAWK_ASSERT (size >= ALIGN);
 	xfi = getxfi(xma, size);
@@ -481,6 +482,7 @@ static void* _realloc_merge (hawk_xma_t* xma, void* b, hawk_oow_t size)
 	/* rounds up 'size' to be multiples of ALIGN */
 	if (size < MINALLOCSIZE) size = MINALLOCSIZE;
 	size = HAWK_ALIGN_POW2(size, ALIGN);
+	if (HAWK_UNLIKELY(size < ALIGN)) return HAWK_NULL; /* the rounding wrapped around. the request is too large */
 
 	if (size > blk->size)
 	{
